@@ -608,11 +608,12 @@ impl St {
                 self.model = m;
                 Ok(Flow::Done)
             }
-            Op::Extend(m, hint) => {
+            Op::Extend(m, hint) | Op::ExtendPairs(m, hint) => {
+                let pairs = matches!(op, Op::ExtendPairs(..));
                 let mut it = GenIter::new(*m, self.next_val, *hint);
                 let r = {
                     let it = &mut it;
-                    self.call(move |b| b.extend_dyn(it))
+                    self.call(move |b| if pairs { b.extend_pairs_dyn(it) } else { b.extend_dyn(it) })
                 };
                 self.next_val = it.next_val;
                 let made: Vec<(u32, u32)> = it.made.iter().map(|id| (*id, ledger::slot(*id).unwrap().val)).collect();
